@@ -6,6 +6,7 @@ import (
 	"encoding/json"
 	"fmt"
 	"math/big"
+	"sort"
 	"sync"
 
 	"github.com/ethereum/go-ethereum/common"
@@ -15,6 +16,8 @@ import (
 	"github.com/shutter-network/rolling-shutter/rolling-shutter/app"
 	kprdb "github.com/shutter-network/rolling-shutter/rolling-shutter/keyper/database"
 	"github.com/shutter-network/rolling-shutter/rolling-shutter/shmsg"
+
+	"github.com/shutter-network/rolling-shutter/rolling-shutter/shdb"
 
 	"verif/harness/fakepg"
 )
@@ -71,6 +74,7 @@ type Scenario struct {
 	AccBlock  int    `json:"accBlock"`
 	SyncEvery int    `json:"syncEvery"` // the keyper under test calls SyncAppWithDB only after the blocks h with
 	SyncOff   int    `json:"syncOff"`   // h % SyncEvery == SyncOff (and after the last block): catch-up over several blocks
+	LateBlock int    `json:"lateBlock"` // block carrying the check-in of the Byzantine keyper (its key is unknown at eon start); 0: checked in before
 }
 
 func (sc Scenario) syncNow(h int) bool {
@@ -82,13 +86,16 @@ func (sc Scenario) syncNow(h int) bool {
 // through the keyper's own commitment), the other dealers' in block 2, late in a longer dealing phase.
 func scenarios() []Scenario {
 	return []Scenario{
-		{Name: "together", Cfg: Cfg{N: 3, T: 2, Byz: []int{3}, PhaseLen: 2}, Kut: 1, DealBlock: 1, AccBlock: 3, SyncEvery: 1},
-		{Name: "staggered", Cfg: Cfg{N: 3, T: 2, Byz: []int{3}, PhaseLen: 3}, Kut: 1, DealBlock: 2, AccBlock: 4, SyncEvery: 1},
+		{Name: "together", Cfg: Cfg{N: 3, T: 2, Byz: []int{3}, PhaseLen: 2}, Kut: 1, DealBlock: 1, AccBlock: 3, SyncEvery: 1, LateBlock: 0},
+		// staggered also has the previous eon overlapping (two active DKG objects while block 0 is handled)
+		{Name: "staggered", Cfg: Cfg{N: 3, T: 2, Byz: []int{3}, PhaseLen: 3, Overlap: true}, Kut: 1, DealBlock: 2, AccBlock: 4, SyncEvery: 1, LateBlock: 0},
 		// lagging: one SyncAppWithDB call of the keyper under test handles 2 (blocks 0+1, 2+3, ..) resp.
 		// 3 (1-3, 4-6, ..) blocks, one transaction each; the EonStarted block / the block with the own
 		// commitment is not the last one of its batch
-		{Name: "lag2", Cfg: Cfg{N: 3, T: 2, Byz: []int{3}, PhaseLen: 3}, Kut: 1, DealBlock: 2, AccBlock: 4, SyncEvery: 2, SyncOff: 1},
-		{Name: "lag3", Cfg: Cfg{N: 3, T: 2, Byz: []int{3}, PhaseLen: 3}, Kut: 1, DealBlock: 1, AccBlock: 4, SyncEvery: 3, SyncOff: 0},
+		// lag2 also has a keyper checking in late (block 1): its evaluation is queued as a second poly-eval
+		// message by the transaction of block 1, in the same SyncAppWithDB call that queued the first
+		{Name: "lag2", Cfg: Cfg{N: 3, T: 2, Byz: []int{3}, PhaseLen: 3}, Kut: 1, DealBlock: 2, AccBlock: 4, SyncEvery: 2, SyncOff: 1, LateBlock: 1},
+		{Name: "lag3", Cfg: Cfg{N: 3, T: 2, Byz: []int{3}, PhaseLen: 3}, Kut: 1, DealBlock: 1, AccBlock: 4, SyncEvery: 3, SyncOff: 0, LateBlock: 0},
 	}
 }
 
@@ -112,7 +119,8 @@ type crashRun struct {
 	lines  []CLine
 	twin   []J // O after every step of the crash-free run
 	run    int
-	gammas [][]byte // polynomial tokens: compressed gammas by first appearance
+	gammas [][]byte    // polynomial tokens: compressed gammas by first appearance
+	everQ  map[int32]J // every outbox row ever seen committed (id -> [k, p])
 	gm     []*shcrypto.Gammas
 }
 
@@ -133,6 +141,24 @@ func (r *crashRun) outboxLen() int {
 	n := 0
 	r.kut.PG.View(func(db *fakepg.DB) { n = len(db.TendermintOutgoingMessages) })
 	return n
+}
+
+// noteQueued remembers every outbox row of the committed database (called before every protocol
+// message and at every observation, so no committed row escapes: rows change only at commits).
+func (r *crashRun) noteQueued() {
+	var rows []kprdb.TendermintOutgoingMessage
+	r.kut.PG.View(func(db *fakepg.DB) { rows = append(rows, db.TendermintOutgoingMessages...) })
+	for _, row := range rows {
+		if _, ok := r.everQ[row.ID]; ok {
+			continue
+		}
+		m := &shmsg.Message{}
+		if err := proto.Unmarshal(row.Msg, m); err != nil {
+			r.everQ[row.ID] = J{"k": "garbage", "p": 0}
+			continue
+		}
+		r.everQ[row.ID] = r.absMsg(m)
+	}
 }
 
 // matchWhere decides whether the wire message ev is a concrete instance of the abstract crash
@@ -190,6 +216,7 @@ func (r *crashRun) hook(ev fakepg.Event) fakepg.Fault {
 	}
 	r.count++
 	r.total++
+	r.noteQueued()
 	if r.record {
 		r.wire = append(r.wire, WireEv{N: r.total, Step: r.step, Stage: r.stage, Blk: r.blk, Kind: ev.Kind, Stmt: ev.Stmt, InTx: ev.InTx})
 	}
@@ -330,10 +357,26 @@ func (r *crashRun) absMsg(m *shmsg.Message) J {
 				tok = t
 			}
 		}
-		if len(pe.Receivers) != w.Cfg.N-1 {
+		// which receivers: all others / all others but the late keyper ("eval"), only the late keyper ("eval2")
+		late := 0
+		if r.sc.LateBlock > 0 && len(r.sc.Cfg.Byz) > 0 {
+			late = r.sc.Cfg.Byz[0]
+		}
+		kind, hasLate := "eval", false
+		for _, rc := range pe.Receivers {
+			if w.idxOf(common.BytesToAddress(rc)) == late && late > 0 {
+				hasLate = true
+			}
+		}
+		switch {
+		case late > 0 && hasLate && len(pe.Receivers) == 1:
+			kind = "eval2"
+		case late > 0 && !hasLate && len(pe.Receivers) == w.Cfg.N-2:
+		case late == 0 && len(pe.Receivers) == w.Cfg.N-1:
+		default:
 			tok = 99
 		}
-		return J{"k": "eval", "p": tok}
+		return J{"k": kind, "p": tok}
 	case m.GetAccusation() != nil:
 		return J{"k": "acc", "p": 0}
 	case m.GetApology() != nil:
@@ -365,20 +408,40 @@ func (r *crashRun) O() J {
 	self := r.sc.Kut
 	rec := J{"phase": 0, "poly": 0, "own": false, "recv": 0, "accd": false, "apst": false}
 	pure := false
+	loadable := true
+	var rawRows int
+	n.PG.View(func(db *fakepg.DB) {
+		for _, row := range db.Puredkg {
+			if uint64(row.Eon) == w.Eon {
+				rawRows++
+			}
+			if _, err := shdb.DecodePureDKG(row.Puredkg); err != nil {
+				loadable = false // what smstate.loadDKG of a restarted keyper would run into
+			}
+		}
+	})
+	if rawRows > 0 && w.pure(n) == nil {
+		pure = true
+		rec["phase"] = 98 // stored but not decodable
+	}
 	if p := w.pure(n); p != nil {
 		pure = true
 		rec["phase"] = int(p.Phase)
 		if p.Polynomial != nil {
 			rec["poly"] = r.tokenOfGammas(p.Polynomial.Gammas())
-			if w.polys[self] == nil {
-				w.polys[self] = p.Polynomial
-			}
+			w.learn(self)
 		}
 	}
 	var rows []int
 	var outRows []kprdb.TendermintOutgoingMessage
 	eonkeys := 0
+	var pend []kprdb.PolyEval
 	n.PG.View(func(db *fakepg.DB) {
+		for _, pe := range db.PolyEvals {
+			if uint64(pe.Eon) == w.Eon {
+				pend = append(pend, pe)
+			}
+		}
 		for _, m := range db.TendermintSyncMeta {
 			if m.CurrentBlock >= w.H0 {
 				rows = append(rows, int(m.CurrentBlock-w.H0))
@@ -456,7 +519,30 @@ func (r *crashRun) O() J {
 		m["code"] = int(s.Code)
 		sent = append(sent, m)
 	}
-	return J{"db": J{"sync": syncH, "rows": rows, "pure": pure, "rec": rec, "outbox": outbox, "res": res, "eonkeys": eonkeys}, "sent": sent}
+	evp := 0
+	for _, pe := range pend {
+		t := 99
+		if a, err := shdb.DecodeAddress(pe.ReceiverAddress); err == nil {
+			if ri := w.idxOf(a); ri > 0 {
+				t = r.tokenOfEval(ri, shdb.DecodeBigint(pe.Eval))
+			}
+		}
+		if t > evp {
+			evp = t
+		}
+	}
+	r.noteQueued()
+	ids := make([]int, 0, len(r.everQ))
+	for id := range r.everQ {
+		ids = append(ids, int(id))
+	}
+	sort.Ints(ids)
+	queued := []J{}
+	for _, id := range ids {
+		queued = append(queued, r.everQ[int32(id)])
+	}
+	return J{"db": J{"sync": syncH, "rows": rows, "pure": pure, "rec": rec, "evp": evp, "loadable": loadable, "outbox": outbox, "res": res, "eonkeys": eonkeys},
+		"sent": sent, "queued": queued}
 }
 
 func decodeTx(tx []byte) *shmsg.Message {
@@ -524,12 +610,16 @@ func (r *crashRun) emit(what string, blk int, mids []J, np int) {
 
 // execute runs the whole scenario with the given faults.
 func executeCrash(sc Scenario, seed int64, run int, faults []Fault, twin []J, record bool) (*crashRun, error) {
-	w, err := NewWorldHold(sc.Cfg, seed, 0, sc.Kut)
+	late := 0
+	if sc.LateBlock > 0 && len(sc.Cfg.Byz) > 0 {
+		late = sc.Cfg.Byz[0]
+	}
+	w, err := NewWorldOpts(sc.Cfg, seed, WorldOpts{Hold: sc.Kut, Late: late})
 	if err != nil {
 		return nil, err
 	}
 	defer w.Close()
-	r := &crashRun{sc: sc, w: w, kut: w.Nodes[sc.Kut], faults: append([]Fault{}, faults...), twin: twin, run: run, record: record}
+	r := &crashRun{sc: sc, w: w, kut: w.Nodes[sc.Kut], faults: append([]Fault{}, faults...), twin: twin, run: run, record: record, everQ: map[int32]J{}}
 	if r.kut == nil {
 		return nil, fmt.Errorf("keyper under test must be honest")
 	}
@@ -567,6 +657,9 @@ func executeCrash(sc Scenario, seed int64, run int, faults []Fault, twin []J, re
 				}
 			}
 			w.Chain.Submit(w.byzTx(Op{Op: "beval", S: byz, Vals: ev}))
+		}
+		if late > 0 && b == sc.LateBlock {
+			w.Chain.Submit(w.LateCheckinTx(late))
 		}
 		if byz > 0 && b == sc.AccBlock {
 			vals := blankVals(N)
